@@ -50,6 +50,7 @@ type G struct {
 	inLoop   bool
 	captured map[string]bool
 	nest     int // statement nesting depth inside the current scenario
+	dstFns   map[string]bool
 }
 
 func (g *G) use(f string) bool {
@@ -550,9 +551,32 @@ func (g *G) genHelpers() {
 			}
 			rt := &Type{K: KRef, Elem: t, Mut: true}
 			f := &Func{Name: g.fresh("inc"), Params: []Param{{Name: "r", T: rt}, {Name: "d", T: t}}}
+			rd := func() Expr { return &Deref{T: t, X: &Var{T: rt, Name: "r"}} }
 			f.Body = []Stmt{
-				&Let{Name: "c", T: t, Init: &Deref{T: t, X: &Var{T: rt, Name: "r"}}},
-				&Assign{LHS: &Deref{T: t, X: &Var{T: rt, Name: "r"}}, Op: "=", RHS: &Bin{T: t, Op: "+", L: &Var{T: t, Name: "c"}, R: &Var{T: t, Name: "d"}}},
+				&Let{Name: "c", T: t, Init: rd()},
+				&Assign{LHS: rd(), Op: "=", RHS: &Bin{T: t, Op: "+", L: &Var{T: t, Name: "c"}, R: &Var{T: t, Name: "d"}}},
+			}
+			if g.use("refs.operand_of_operator") {
+				// the reference itself as an operand: with a typed value, a literal, itself, in a comparison
+				switch g.intRange(0, 3, "refarith") {
+				case 0:
+					f.Body = []Stmt{&Assign{LHS: rd(), Op: "=", RHS: &Bin{T: t, Op: "+", L: rd(), R: &Var{T: t, Name: "d"}}}}
+				case 1:
+					f.Body = []Stmt{
+						&Assign{LHS: rd(), Op: "=", RHS: &Bin{T: t, Op: "+", L: &Var{T: t, Name: "d"}, R: rd()}},
+						&Assign{LHS: rd(), Op: "=", RHS: &Bin{T: t, Op: "-", L: &Bin{T: t, Op: "+", L: rd(), R: g.posLit(t, 9)}, R: g.posLit(t, 9)}},
+					}
+				case 2:
+					f.Body = []Stmt{
+						&If{Cond: &Bin{T: TBool, Op: ">", L: rd(), R: g.posLit(t, 9)}, Then: []Stmt{&Assign{LHS: rd(), Op: "=", RHS: &Bin{T: t, Op: "-", L: rd(), R: g.posLit(t, 9)}}}},
+						&Assign{LHS: rd(), Op: "+=", RHS: &Var{T: t, Name: "d"}},
+					}
+				case 3:
+					f.Body = []Stmt{
+						&Let{Name: "c", T: t, Init: &Bin{T: t, Op: "+", L: rd(), R: rd()}},
+						&Assign{LHS: rd(), Op: "=", RHS: &Bin{T: t, Op: "-", L: &Var{T: t, Name: "c"}, R: &Bin{T: t, Op: "-", L: rd(), R: &Var{T: t, Name: "d"}}}},
+					}
+				}
 			}
 			g.p.Funcs = append(g.p.Funcs, f)
 			g.incFns[t.String()] = f
@@ -662,6 +686,50 @@ func (g *G) assignTo(v gvar) Stmt {
 	return &Assign{LHS: &Var{T: v.t, Name: v.name}, Op: "=", RHS: rhs}
 }
 
+// selfLit builds a literal of v's type whose components read other components of v
+// (fields of equal type rotated, array elements reversed).
+func (g *G) selfLit(v gvar) Expr {
+	self := &Var{T: v.t, Name: v.name}
+	bump := func(e Expr, t *Type) Expr {
+		switch t.K {
+		case KInt:
+			return &Bin{T: t, Op: "+", L: e, R: g.posLit(t, 9)}
+		case KBool:
+			return &Un{T: TBool, Op: "!", X: e}
+		}
+		return e
+	}
+	if v.t.K == KFixed {
+		al := &ArrLit{T: v.t}
+		n := v.t.Len
+		for i := 0; i < n; i++ {
+			e := Expr(&Index{T: v.t.Elem, X: self, I: &Lit{T: IntT(32, true), I: big.NewInt(int64(n - 1 - i))}})
+			if n-1-i == i {
+				e = bump(e, v.t.Elem)
+			}
+			al.Elems = append(al.Elems, e)
+		}
+		return al
+	}
+	sl := &StructLit{T: v.t}
+	nf := len(v.t.Fields)
+	for i, f := range v.t.Fields {
+		src := i
+		for d := 1; d < nf; d++ {
+			if j := (i + d) % nf; v.t.Fields[j].T.Equal(f.T) {
+				src = j
+				break
+			}
+		}
+		e := Expr(&FieldX{T: f.T, X: self, Name: v.t.Fields[src].Name})
+		if src == i {
+			e = bump(e, f.T)
+		}
+		sl.Fields = append(sl.Fields, e)
+	}
+	return sl
+}
+
 func (g *G) mutableIntVars() []gvar {
 	return g.varsOf(func(v gvar) bool { return v.mut && v.t.K == KInt })
 }
@@ -768,6 +836,11 @@ func (g *G) genStmt(depth int) []Stmt {
 			return []Stmt{s}
 		}
 	case 7: // struct variable, copy, field assignment
+		if sv := g.varsOf(func(v gvar) bool { return v.mut && (v.t.K == KStruct || v.t.K == KFixed) }); len(sv) > 0 && g.chance(3, "selflit") && g.use("stmt.assign_literal_reading_target") {
+			// whole-value assignment of a literal that reads the assigned variable: the right-hand side is evaluated first
+			v := sv[g.intRange(0, len(sv)-1, "selflitvar")]
+			return []Stmt{&Assign{LHS: &Var{T: v.t, Name: v.name}, Op: "=", RHS: g.selfLit(v)}}
+		}
 		if len(g.structs) > 0 {
 			st := g.structs[g.intRange(0, len(g.structs)-1, "st")]
 			n := g.fresh("p")
@@ -894,6 +967,42 @@ func (g *G) genStmt(depth int) []Stmt {
 				g.vars = saved
 				out = append(out, &Append{Arr: &Var{T: at, Name: n}, Val: val})
 				g.use("dyn.append")
+			}
+			// element stores: several through the same array value (a parameter of a helper, the local itself)
+			if alit, ok := out[0].(*Let).Init.(*ArrLit); ok && g.chance(2, "dynstores") && g.use("dyn.elem_stores") {
+				dlen := len(alit.Elems) + len(out) - 1
+				i32 := IntT(32, true)
+				at0 := func(arr string, i int) Expr {
+					return &Index{T: et, X: &Var{T: at, Name: arr}, I: &Lit{T: i32, I: big.NewInt(int64(i))}}
+				}
+				if g.chance(2, "dynparam") {
+					fname := "dst_" + et.String()
+					if g.dstFns == nil {
+						g.dstFns = map[string]bool{}
+					}
+					if !g.dstFns[fname] {
+						g.dstFns[fname] = true
+						g.p.Funcs = append(g.p.Funcs, &Func{Name: fname, Params: []Param{{Name: "a", T: at}, {Name: "v", T: et}}, Body: []Stmt{
+							&Assign{LHS: at0("a", 0), Op: "=", RHS: &Var{T: et, Name: "v"}},
+							&Assign{LHS: at0("a", 0), Op: "=", RHS: &Bin{T: et, Op: "+", L: at0("a", 0), R: &Var{T: et, Name: "v"}}},
+							&Assign{LHS: at0("a", 0), Op: "*=", RHS: &Lit{T: et, I: big.NewInt(3)}},
+						}})
+					}
+					saved := g.vars
+					g.vars = g.varsOf(func(x gvar) bool { return x.name != n })
+					val := g.genInt(et, 1)
+					g.vars = saved
+					out = append(out, &ExprStmt{X: &Call{T: TVoid, Fn: fname, Args: []Expr{&Var{T: at, Name: n}, val}}})
+					g.use("dyn.elem_stores_through_param")
+				}
+				for k := g.intRange(1, 3, "ndynstore"); k > 0; k-- {
+					i := g.intRange(0, dlen-1, "dynstoreidx")
+					saved := g.vars
+					g.vars = g.varsOf(func(x gvar) bool { return x.name != n })
+					val := g.genInt(et, 1)
+					g.vars = saved
+					out = append(out, &Assign{LHS: at0(n, i), Op: rapid.SampledFrom([]string{"=", "+=", "="}).Draw(g.t, "dynstoreop"), RHS: val})
+				}
 			}
 			acc := g.fresh("v")
 			out = append(out, &Let{Name: acc, T: et, Init: &Lit{T: et, I: big.NewInt(0)}})
